@@ -195,7 +195,7 @@ func (r *Runner) monTA(s *Step, rep *Reply) {
 	for _, id := range ids {
 		owner := r.M.CtrByID(id)
 		for _, c := range live {
-			if c.ID == id || !c.CpusTold || r.cpuOptOut(c) {
+			if c.ID == id || !c.CpusTold || r.cpuOptOut(c) || r.NoShadow {
 				continue
 			}
 			if x := excl[id].Inter(SetOf(MustList(c.Shadow.Cpus))); len(x) > 0 {
@@ -222,7 +222,7 @@ func (r *Runner) monTA(s *Step, rep *Reply) {
 		}
 	}
 	for _, c := range live {
-		if !c.CpusTold || r.cpuOptOut(c) {
+		if !c.CpusTold || r.cpuOptOut(c) || r.NoShadow {
 			continue
 		}
 		x := SetOf(MustList(c.Shadow.Cpus))
@@ -315,7 +315,7 @@ func (r *Runner) monTA(s *Step, rep *Reply) {
 			continue
 		}
 		if cfg.PinCPU && !r.cpuPreserveAnn(c) && g.CPUType != "preserve" {
-			if c.CpusTold && len(MustList(c.Shadow.Cpus)) == 0 {
+			if c.CpusTold && len(MustList(c.Shadow.Cpus)) == 0 && !r.NoShadow {
 				r.Violate("C03", "empty-cpuset", s.Op, "after %s: CPU-pinned container %s has an empty allowed CPU set", s.Op, c.Key)
 			}
 			cr, okc := r.cacheRes(c.ID)
@@ -362,7 +362,7 @@ func (r *Runner) monTA(s *Step, rep *Reply) {
 			}
 		}
 		// shares = kubelet encoding of granted capacity
-		if cfg.PinCPU && g.CPUType != "preserve" {
+		if cfg.PinCPU && g.CPUType != "preserve" && !r.NoShadow {
 			m := g.Portion
 			if m == 0 {
 				m = 1000 * len(g.Exclusive)
